@@ -32,12 +32,18 @@ FIXED = [
  ("C11", "F12-stale-current-breakpoint", "a breakpoint fires on every arrival", "`break add x3002; continue; goto x3001; continue` ran through x3002; a one-instruction loop paused every second arrival"),
  ("C10", "F25-finish-stale-instr", "`step out` looks at the instruction", "`goto <address of a RET>; step out` ran past that RET (instruction classified before the commands of the pause)"),
  ("C10", "F11-step-over-branch", "`step` executes exactly one instruction unless", "`step` on a taken `brp loop` ran the whole loop (StepOver awaited pc+1 for non-calls)"),
+ ("C14", "F14-integer-overflow", "debugger integer arguments above i32::MAX", "`print 2147483648`, `move r1 2147483649` panicked in debug builds and wrapped negative in release builds (guard `integer > MAX / radix` passes 214748364)"),
+ ("C14", "F28-print-default", "`print` without an argument shows", "`print` / `p` alone answered 'Missing argument' although help.txt documents `print(p) LOCATION?` (default: PC)"),
  ("C15", "F16-eval-label-offset", "`eval` resolves label operands relative", "after `step into 2`, `eval ld r3 v` loaded from v+2 (AsmLine::new(0, ..))"),
  ("C15", "F17-eval-surplus-operands", "`eval` refuses an instruction followed by surplus", "`eval add r1 r1 r1 r1` panicked in debug builds / executed in release builds"),
  ("C20", "F20-ctrl-right-byte-index", "Ctrl+Right returns a character index", "keys e-acute, Ctrl+Right, a tripped assert!(char_index <= char_count) (byte index used as char index)"),
  ("C20", "F27-ctrl-right-trailing-spaces", "Ctrl+Right from a word followed only by spaces", "keys a, space, space, Ctrl+Left, Ctrl+Right, +, Enter submitted `a+  ` instead of `a  +` (cursor stopped after the word instead of the end of line)"),
 ]
-KNOWN = []
+KNOWN = [
+ {"status": "known", "property": "C14", "key": "F15-sudo-exit", "match": {"first_word": "sudo", "implementation": "3 0"},
+  "entry": "sudo exits the debugger process (easter egg in name.rs)",
+  "detail": "a command line whose first word is exactly `sudo` (case-sensitive) prints a joke and calls std::process::exit(0): the line is neither parsed to a command nor rejected without effect. Not repaired: the repair would remove deliberate behaviour rather than correct it. Any other line that exits or panics is still a violation."},
+]
 
 def main():
     findings = []
